@@ -1441,6 +1441,69 @@ func main() {
 		})
 	}
 
+	// --- CEncPair: distinct sets, same encoding? (F-C05-2 type confusion, F-C05-2b string-slice collisions) ---
+	encInfo := func(in []kvt) (attribute.Set, string, string, string) {
+		s := attribute.NewSet(toAttrs(in, r)...)
+		ts := s.ToSlice()
+		emits := make([]string, len(ts))
+		for j, x := range ts {
+			emits[j] = vgen.HxS(x.Value.Emit())
+		}
+		return s, kvsCoq(fromAttrs(ts)), vgen.List(emits), s.Encoded(attribute.DefaultEncoder())
+	}
+	addEncPair := func(i1, i2 []kvt, kind string) {
+		if !validUTF(i1) || !validUTF(i2) {
+			return
+		}
+		desc := map[string]any{"op": "Encoded of two sets", "input1": kvsDesc(i1), "input2": kvsDesc(i2), "how": kind}
+		guard(desc, func() {
+			s1, c1, em1, e1 := encInfo(i1)
+			s2, c2, em2, e2 := encInfo(i2)
+			desc["encoded1"], desc["encoded2"], desc["equals"] = e1, e2, s1.Equals(&s2)
+			w.Tally(fmt.Sprintf("encpair:%s:same-encoding=%v", kind, e1 == e2))
+			w.Add(vgen.App("CEncPair", kvsCoq(i1), kvsCoq(i2), c1, c2, em1, em2, vgen.HxS(e1), vgen.HxS(e2)), desc, "encpair", true)
+		})
+	}
+	// corpus: the witnesses of c05_encode_injective_refuted / _refuted_unguarded, replayed on the code
+	addEncPair([]kvt{{"k", val{t: 2, n: 1}}}, []kvt{{"k", val{t: 4, s: "1"}}}, "corpus-int-vs-string")
+	addEncPair([]kvt{{"k", val{t: 3, n: one}}}, []kvt{{"k", val{t: 2, n: 1}}}, "corpus-float-vs-int")
+	addEncPair([]kvt{{"k", val{t: 1, b: true}}, {"n", val{t: 3, n: nanQ}}}, []kvt{{"k", val{t: 4, s: "true"}}, {"n", val{t: 4, s: "NaN"}}}, "corpus-bool-nan-vs-strings")
+	addEncPair([]kvt{{"k", val{t: 7, ns: []uint64{nanQ}}}}, []kvt{{"k", val{t: 7, ns: []uint64{nanQ0}}}}, "corpus-nan-payloads")
+	addEncPair([]kvt{{"a", val{t: 8, ss: []string{"x,b=y"}}}}, []kvt{{"a", val{t: 4, s: "[\"x"}}, {"b", val{t: 4, s: "y\"]"}}}, "corpus-strslice-eq")
+	addEncPair([]kvt{{"k", val{t: 8, ss: []string{"a\\b"}}}}, []kvt{{"k", val{t: 4, s: "[\"a\\b\"]"}}}, "corpus-strslice-backslash")
+	addEncPair([]kvt{{"k", val{t: 5}}}, []kvt{{"k", val{t: 6}}}, "corpus-empty-slices")
+	addEncPair([]kvt{{"k", val{t: 4, s: "a,b=c\\"}}}, []kvt{{"k", val{t: 4, s: "a"}}, {"b", val{t: 4, s: "c\\"}}}, "corpus-escapes-keep-apart")
+	// every value type with the awkward values, against itself with one value changed
+	awkward := []kvt{{"b", val{t: 1}}, {"e0", val{t: 5}}, {"e1", val{t: 6}}, {"e2", val{t: 7}}, {"e3", val{t: 8}}, {"f1", val{t: 3, n: nanQ}},
+		{"f2", val{t: 3, n: posInf}}, {"f3", val{t: 3, n: negInf}}, {"f4", val{t: 3, n: negZero}}, {"f5", val{t: 3, n: 0}},
+		{"fs", val{t: 7, ns: []uint64{nanQ, posInf, negInf, negZero, 0, one}}}, {"i", val{t: 2, n: 1 << 63}}, {"is", val{t: 6, ns: []uint64{^uint64(0), 0}}},
+		{"s", val{t: 4, s: "=,\\ \"x\""}}, {"ss", val{t: 8, ss: []string{"", "p,q", "r s"}}}, {"=,\\", val{t: 4, s: ""}}, {"z", val{}}}
+	for i := range awkward {
+		other := append([]kvt(nil), awkward...)
+		other[i].v = val{t: 4, s: "changed"}
+		addEncPair(awkward, other, "corpus-awkward")
+	}
+	nEncPair := o.Count(120, 2000)
+	for i := 0; i < nEncPair; i++ {
+		cfg := genCfg{utf8only: true}
+		asciiStrs = i%2 == 0
+		in := genInput(r, cfg, vgen.Pick(r, sizes[:12]))
+		fin := finalMapping(in)
+		other := append([]kvt(nil), fin...)
+		kind := "mutated"
+		if len(fin) > 0 && i%3 == 0 { // type confusion: one non-string value replaced by the string of its text
+			j := r.Intn(len(fin))
+			if fin[j].v.t != 4 {
+				other[j].v = val{t: 4, s: fin[j].v.attr(false).Emit()}
+				kind = "retyped-as-string"
+			}
+		} else {
+			other, _ = mutateMapping(r, cfg, other)
+		}
+		addEncPair(fin, other, kind)
+	}
+	asciiStrs = false
+
 	// re-verify everything retained, now that hundreds of other sets were built, filtered and encoded
 	changed := 0
 	for _, rv := range retained {
